@@ -311,7 +311,9 @@ class Server:
         # all errors from initialization process
         errors = self.secnode.errors
 
-        if not self._testonly:
+        if not self._testonly and not errors:
+            # with a bad configuration nothing is started: the poll threads
+            # would write configured values to the hardware before we exit
             start_events = MultiEvent(default_timeout=30)
             for modname, modobj in self.secnode.modules.items():
                 # startModule must return either a timeout value or None (default 30 sec)
